@@ -241,14 +241,22 @@ class Fx:
         my_rets = []
         saved_rets = self.rets
         self.rets = my_rets
+        saved_yields = getattr(self, 'yields', None)
+        my_yields = []
+        self.yields = my_yields
         try:
             self.block(fi.body(), env, fi)
         finally:
             self.rets = saved_rets
+            self.yields = saved_yields
             self.cur = saved_cur
             self.guards = saved_guards
             if call is not None:
                 self.stack.pop()
+        if fi.yields() or any(isinstance(n, ast.YieldFrom) for n in ast.walk(fi.node)):
+            # a generator function: its value is the sequence of what it yields (`yield v` one element, `yield from x` the elements of x); effects of its body
+            # were recorded above (the body may run later, lazily - the set of effects is the same)
+            return L(my_yields or [U], exact=False)
         out = None
         for r in my_rets:
             out = join(out, r)
@@ -411,6 +419,18 @@ class Fx:
 
     def ev_Constant(self, e, env, fi):
         return K(e.value)
+
+    def ev_Yield(self, e, env, fi):
+        v = self.ev(e.value, env, fi) if e.value is not None else K(None)
+        if getattr(self, 'yields', None) is not None:
+            self.yields.append(v)
+        return U
+
+    def ev_YieldFrom(self, e, env, fi):
+        v = self.ev(e.value, env, fi)
+        if getattr(self, 'yields', None) is not None:
+            self.yields.extend(self.elements(v))
+        return U
 
     def ev_Name(self, e, env, fi):
         if e.id in env:
